@@ -214,7 +214,8 @@ def rule_names(ctx):
                 "after all formulas are added: rename_conflicting_symbols, then create_unique_formula_names (%s)" % ms)
     un = fx.fn("Problem::create_unique_formula_names")
     from .. import ftpl
-    v = ftpl.canon_iter(sym.Eval(fx, inline_depth=0).function(un))
+    from ..leaves import strip_acc as _strip_acc
+    v = _strip_acc(ftpl.canon_iter(sym.Eval(fx, inline_depth=0).function(un)))
     fm = sorted({x for x in sym.subterms(v) if isinstance(x, tuple) and x[:1] == ("format",)}, key=repr)
     FS = ("place", "self.formulas")
     IDX, ELEM = ("idx", FS), ("at", FS)
@@ -226,6 +227,9 @@ def rule_names(ctx):
     ctx.add("NAMES", "unique", ok, ctx.site(un), "names become formula_<position>_<old name>: the position makes them pairwise different")
     rv = repr(v)
     keeps = all(any(repr(x) in rv for x in field(f)) or ("('..', %r)" % (ELEM,)) in rv for f in ("role", "formula"))
+    # the in-place spelling: the only thing done to `self` is assigning the `name` field of every element of `self.formulas`
+    if v[:1] == ("upd",) and v[1] == ("param", "self") and re.fullmatch(r"each-assign-field:\w+\.name@formulas", str(v[2])):
+        keeps = True
     ctx.add("NAMES", "unique:keeps-role-formula", keeps, ctx.site(un), "role and formula are carried over unchanged")
     aa = fx.fn("Problem::add_annotated_formulas")
     p = sym.Eval(fx, inline_depth=0)
@@ -236,7 +240,8 @@ def rule_names(ctx):
         r = repr(v) + repr(_comp.canon(v))      # the comprehension form sees through a helper handed to `map` as a function value
     except Exception:
         r = repr(v)
-    ok = "String::is_empty" in r and "('lit', 'unnamed_formula')" in r and "starts_with" in r and "('format', 'f{}'" in r
+    # the prefix `f`: format!("f{}", name), or the character inserted at position 0 of the name in place
+    ok = "String::is_empty" in r and "('lit', 'unnamed_formula')" in r and "starts_with" in r and ("('format', 'f{}'" in r or "'insert@name', (('lit', 0), ('lit', 'f'))" in r)
     ctx.add("NAMES", "sanitise", ok, ctx.site(aa), "an empty name becomes `unnamed_formula`, a name starting with `_` gets the prefix `f`")
     # generated names vs preamble names
     text = fx.read_source("src/verifying/problem/standard_interpretation.p")
